@@ -378,6 +378,24 @@ def run_shard(shard, tier, seed):
                             if v2[0] != 'attr':
                                 ctx.v(_sig('required-not-enforced', t, an), {'class': cn, 'attr': an}, {'verdict': v2[0]})
                             ctx.c['required_withheld'] += 1
+                            # a required attribute that IS set - to a falsy but valid value ('' for token / anyURI types, 0 where
+                            # the type admits it) - is set: the element serialises and shows it
+                            for lex in ('', '0'):
+                                if not ref.valid(at, lex):
+                                    continue
+                                for pv in lib.py_candidates(lex)[::-1] if lex else ['']:
+                                    e3 = complete_element(lib, cls, t, omit=an)
+                                    if lib.call(setattr, e3, pyname(an), pv)[0] == 'exc':
+                                        continue
+                                    ctx.evals += 1
+                                    ctx.c['required_set_to_falsy_value'] += 1
+                                    v3 = lib.verdict(e3)
+                                    if v3[0] != 'ok':
+                                        ctx.v(_sig('required-over-enforced', t, an, 'falsy-value'), {'class': cn, 'attr': an, 'value': repr(pv)},
+                                              {'verdict': list(v3)[:2]})
+                                    elif out_attrib(v3[1]).get(an) != str(pv):
+                                        ctx.v(_sig('serialised-set-differs', t, an, 'falsy-value'), {'class': cn, 'attr': an, 'value': repr(pv)})
+                                    break
                 else:
                     ctx.c['complete_element_build_failed'] += 1
             # ---- set / overwrite / remove sequences against a dictionary model
